@@ -7,6 +7,10 @@ package main
 //@ func main() ()
 //@   property C17
 //@   propagates all   [C08] [C17]
+//@   at call required#1
+//@     assert (and (= (rllen docs) 1) (= obj@arg (Document.Data (rlnth docs 0))))                           [C17]
+//@   at call Parser.MergeFileLayers#1
+//@     assert (= path@arg realPath)                                                                         [C17]
 //
 //@ func required(obj) (res, err)
 //@   ensures (not (isErr err))
